@@ -200,13 +200,15 @@ func sortedBefore(fn *ssa.Function, v ssa.Value, at ssa.Instruction) bool {
 		if !dominates(c, at) {
 			continue
 		}
-		if unwrap(unwrap(a)) == unwrap(v) || sameOrigin(unwrap(a), v) || sameRoot(unwrap(a), v) || flowsFrom(unwrap(a), func(x ssa.Value) bool { return x == unwrap(v) }) {
-			return true
-		}
+		sorted := unwrap(a)
 		if mi, ok := a.(*ssa.MakeInterface); ok {
-			if unwrap(mi.X) == unwrap(v) || sameOrigin(mi.X, v) || sameRoot(mi.X, v) {
-				return true
-			}
+			sorted = unwrap(mi.X)
+		}
+		same := func(x ssa.Value) bool {
+			return unwrap(x) == unwrap(sorted) || sameOrigin(sorted, x) || sameRoot(sorted, x)
+		}
+		if same(v) || flowsFrom(sorted, func(x ssa.Value) bool { return x == unwrap(v) }) || flowsFromLocal(v, same) {
+			return true
 		}
 	}
 	return false
@@ -329,7 +331,7 @@ func c03order(p *Prog, r *Report) {
 							bad = "sub-slice taken at " + p.ipos(x)
 						case *ssa.Store:
 							if fv, _ := fieldOf(x.Addr); fv != nil {
-								bad = "stored into field " + fv.Name() + " at " + p.ipos(x)
+								bad = "stored into field " + refName(fv) + " at " + p.ipos(x)
 							}
 						}
 					}
@@ -361,7 +363,36 @@ func c03memo(p *Prog, r *Report) {
 		inner := callsIn(fn, named(HG+".Hashgraph."+s.inner))
 		ok := len(adds) == 1 && len(gets) == 1 && len(inner) == 1
 		detail := fmt.Sprintf("adds=%d gets=%d inner=%d", len(adds), len(gets), len(inner))
-		if ok {
+		if len(inner) == 0 && p.Func(HG, "Hashgraph", s.inner) == fn && len(adds) == 1 && len(gets) == 1 {
+			// the compute function was merged into the wrapper: the wrapper computes in place
+			ok = true
+			add, get := adds[0], gets[0]
+			if fv, _ := fieldOf(recvOf(add)); fv != fc {
+				ok, detail = false, "the wrapper fills a different cache"
+			}
+			if fv, _ := fieldOf(recvOf(get)); fv != fc {
+				ok, detail = false, "the wrapper reads a different cache"
+			}
+			for i := 1; i < len(fn.Params); i++ {
+				par := ssa.Value(fn.Params[i])
+				for _, k := range []ssa.Value{argN(add, 0), argN(get, 0)} {
+					if !depOnValue(k, par) {
+						ok, detail = false, "the cache key does not include parameter "+fn.Params[i].Name()
+					}
+				}
+			}
+			// the value cached is the value returned
+			for _, rp := range p.succRets(fn, errNil, 1) {
+				v := rp.ret.Results[0]
+				if flowsFromCall(v, named(COMM+".LRU.Get"), 0) || dependsOn(v, func(x ssa.Value) bool { _, _, isGet := isCallTo(x, named(COMM+".LRU.Get")); return isGet }) {
+					continue
+				}
+				if !dominates(add, rp.ret) || !(unwrap(argN(add, 1)) == unwrap(v) || sameOrigin(argN(add, 1), v) || flowsFromLocal(argN(add, 1), func(x ssa.Value) bool { return x == unwrap(v) })) {
+					ok, detail = false, "a computed result is returned without being cached as such"
+				}
+			}
+			r.Note("%s: %s computes in place (its compute function %s was merged into it)", rule, s.wrapper, s.inner)
+		} else if ok {
 			add, get, in := adds[0], gets[0], inner[0].(*ssa.Call)
 			if fv, _ := fieldOf(recvOf(add)); fv != fc {
 				ok = false
